@@ -28,7 +28,37 @@ type c02ReaderCfg struct {
 	// with an error at instrument creation) for up-down counters / counters / both, 'D' = Drop for up-down counters
 	rej byte
 }
-type c02InstCfg struct{ float, updown bool }
+// name = index of the instrument whose NAME this one is created with (itself unless the token carries "#k"):
+// same name + same kind and number type = the SDK returns the cached instrument (one shared stream, owned by the
+// first); same name + different kind or number type = the duplicate-registration case (own stream, equal names).
+type c02InstCfg struct {
+	float, updown bool
+	name          int
+}
+
+// owner returns the first instrument with the same name, kind and number type as instrument j.
+func (c c02Cfg) owner(j int) int {
+	for k := 0; k < j; k++ {
+		if c.insts[k].name == c.insts[j].name && c.insts[k].float == c.insts[j].float && c.insts[k].updown == c.insts[j].updown {
+			return k
+		}
+	}
+	return j
+}
+
+// streamIndex maps a reported metric (name "i<n>", number type, monotonic) to the instrument that owns the stream.
+func (c c02Cfg) streamIndex(name string, float, mono bool) string {
+	n, err := strconv.Atoi(strings.TrimPrefix(name, "i"))
+	if err != nil {
+		return "?"
+	}
+	for k, ic := range c.insts {
+		if ic.name == n && ic.float == float && ic.updown == !mono {
+			return strconv.Itoa(k)
+		}
+	}
+	return "?"
+}
 type c02Cfg struct {
 	readers []c02ReaderCfg
 	insts   []c02InstCfg
@@ -84,7 +114,11 @@ func (c c02Cfg) String() string {
 		if i.updown {
 			k = "u"
 		}
-		is = append(is, n+k)
+		x := n + k
+		if i.name != len(is) {
+			x += "#" + strconv.Itoa(i.name)
+		}
+		is = append(is, x)
 	}
 	fl := ""
 	if c.cb {
@@ -112,7 +146,11 @@ func c02ParseCfg(rs, is string) c02Cfg {
 		c.to = c.to || f == "to"
 	}
 	for _, i := range strings.Split(is, ",") {
-		c.insts = append(c.insts, c02InstCfg{float: i[0] == 'f', updown: i[1] == 'u'})
+		ic := c02InstCfg{float: i[0] == 'f', updown: i[1] == 'u', name: len(c.insts)}
+		if k := strings.Index(i, "#"); k > 0 {
+			ic.name, _ = strconv.Atoi(i[k+1:])
+		}
+		c.insts = append(c.insts, ic)
 	}
 	return c
 }
@@ -157,7 +195,7 @@ func c02Scaled(f float64) string {
 
 // c02Format renders one collection: "<stamp>:<reader>:<ok|err>;<inst><d|c><m|n>:<a>=<v>,…;…"
 // (streams sorted by instrument index, points by attribute id; float values printed ×256).
-func c02Format(stamp, ridx int, err error, rm *metricdata.ResourceMetrics) string {
+func c02Format(cfg c02Cfg, stamp, ridx int, err error, rm *metricdata.ResourceMetrics) string {
 	st := "ok"
 	if err != nil {
 		st = "err"
@@ -168,13 +206,16 @@ func c02Format(stamp, ridx int, err error, rm *metricdata.ResourceMetrics) strin
 			for _, m := range sm.Metrics {
 				var pts []c02Pt
 				var flags string
+				idx := "?"
 				switch d := m.Data.(type) {
 				case metricdata.Sum[int64]:
+					idx = cfg.streamIndex(m.Name, false, d.IsMonotonic)
 					flags = c02T(d.Temporality) + map[bool]string{true: "m", false: "n"}[d.IsMonotonic]
 					for _, p := range d.DataPoints {
 						pts = append(pts, c02Pt{c02SetID(p.Attributes), strconv.FormatInt(p.Value, 10)})
 					}
 				case metricdata.Sum[float64]:
+					idx = cfg.streamIndex(m.Name, true, d.IsMonotonic)
 					flags = c02T(d.Temporality) + map[bool]string{true: "m", false: "n"}[d.IsMonotonic]
 					for _, p := range d.DataPoints {
 						pts = append(pts, c02Pt{c02SetID(p.Attributes), c02Scaled(p.Value)})
@@ -187,7 +228,7 @@ func c02Format(stamp, ridx int, err error, rm *metricdata.ResourceMetrics) strin
 				for _, p := range pts {
 					ps = append(ps, fmt.Sprintf("%d=%s", p.a, p.v))
 				}
-				streams = append(streams, strings.TrimPrefix(m.Name, "i")+flags+":"+strings.Join(ps, ","))
+				streams = append(streams, idx+flags+":"+strings.Join(ps, ","))
 			}
 		}
 	}
@@ -214,7 +255,7 @@ func (e *c02Exporter) Export(_ context.Context, rm *metricdata.ResourceMetrics) 
 	// rm is pooled by the reader: everything is extracted before returning
 	e.sys.mu.Lock()
 	if e.sys.stamp >= 0 {
-		e.sys.recs = append(e.sys.recs, c02Format(e.sys.stampFor(e.ridx), e.ridx, nil, rm))
+		e.sys.recs = append(e.sys.recs, c02Format(e.sys.cfg, e.sys.stampFor(e.ridx), e.ridx, nil, rm))
 	}
 	e.sys.mu.Unlock()
 	select {
@@ -332,7 +373,12 @@ func c02New(cfg c02Cfg) *c02Sys {
 		s.down = append(s.down, false)
 	}
 	if cfg.hooks {
-		for j := range cfg.insts {
+		for j, ic := range cfg.insts {
+			if ic.name != j {
+				// created with another instrument's name: that name's view (and hook) applies
+				s.hooks = append(s.hooks, s.hooks[ic.name])
+				continue
+			}
 			h := &c02Hook{}
 			s.hooks = append(s.hooks, h)
 			opts = append(opts, WithView(NewView(Instrument{Name: fmt.Sprintf("i%d", j)}, Stream{
@@ -354,8 +400,8 @@ func c02New(cfg c02Cfg) *c02Sys {
 			}))
 		}
 	}()
-	for j, ic := range cfg.insts {
-		name := fmt.Sprintf("i%d", j)
+	for _, ic := range cfg.insts {
+		name := fmt.Sprintf("i%d", ic.name)
 		switch {
 		case !ic.float && !ic.updown:
 			c, _ := m.Int64Counter(name)
@@ -380,7 +426,7 @@ func (s *c02Sys) collect(stamp, r int) { s.collectCtx(context.Background(), stam
 func (s *c02Sys) collectCtx(ctx context.Context, stamp, r int) {
 	var rm metricdata.ResourceMetrics
 	err := s.readers[r].Collect(ctx, &rm)
-	rec := c02Format(stamp, r, err, &rm)
+	rec := c02Format(s.cfg, stamp, r, err, &rm)
 	s.mu.Lock()
 	s.recs = append(s.recs, rec)
 	s.mu.Unlock()
